@@ -55,6 +55,10 @@ def check_options():
     if os.path.isdir(outfile):
         raise DDSMTException(
             'output file "{}" is a directory'.format(outfile))
+    if os.path.exists(outfile) and os.path.samefile(options.args().infile,
+                                                    outfile):
+        raise DDSMTException(
+            'output file "{}" is the input file'.format(outfile))
     outdir = os.path.dirname(os.path.abspath(outfile))
     if not os.path.isdir(outdir) or not os.access(outdir, os.W_OK):
         raise DDSMTException(
